@@ -24,12 +24,14 @@ def make_mm():
     feats = {}
     for o in (True, False):
         for u in (True, False):
-            fa = EAttribute(f'a_{int(o)}{int(u)}', EInt, upper=-1, ordered=o, unique=u)
-            fr = EReference(f'r_{int(o)}{int(u)}', B, upper=-1, ordered=o, unique=u)
+            # "multi-valued" is every upper bound other than 0 / 1: unbounded (-1), unspecified (-2), n > 1 (bounds are
+            # not enforced at run time)
+            fa = EAttribute(f'a_{int(o)}{int(u)}', EInt, upper=-1 if o else -2, ordered=o, unique=u)
+            fr = EReference(f'r_{int(o)}{int(u)}', B, upper=-2 if u else 7, ordered=o, unique=u)
             A.eStructuralFeatures.extend([fa, fr])
             feats[('attr', o, u)] = fa
             feats[('ref', o, u)] = fr
-            fc = EReference(f'c_{int(o)}{int(u)}', B, upper=-1, ordered=o, unique=u, containment=True)
+            fc = EReference(f'c_{int(o)}{int(u)}', B, upper=-1 if u else 9, ordered=o, unique=u, containment=True)
             A.eStructuralFeatures.append(fc)
             feats[('cont', o, u)] = fc
     return A, B, feats
@@ -137,7 +139,24 @@ class Impl:
                 res.append([self.t(x) for x in c[sl]])
             except Exception as e:  # noqa
                 res.append(type(e).__name__)
+        n = len(c)
+        for i in range(-n - 1, n + 1):
+            # a position given as an integer-LIKE object (__index__, e.g. a numpy integer): as for a list
+            try:
+                res.append(self.t(c[IndexLike(i)]))
+            except IndexError:
+                res.append('IndexError')
+            except Exception as e:  # noqa
+                res.append(type(e).__name__)
         return res
+
+
+class IndexLike:
+    def __init__(self, i):
+        self.i = i
+
+    def __index__(self):
+        return self.i
 
 
 SLICES = [slice(None, None, -1), slice(None, None, 2), slice(1, None), slice(None, -1), slice(None, None, None),
@@ -341,7 +360,13 @@ def explore(out, model, A, B, feats, decl, univ, maxlen, thorough, stats):
             elif o != so:
                 clause = 'index=position'
             if not clause:
-                isl, ssl = impl.slices(), [list(L[sl]) for sl in SLICES]
+                ssl = [list(L[sl]) for sl in SLICES]
+                for i in range(-len(L) - 1, len(L) + 1):
+                    try:
+                        ssl.append(L[IndexLike(i)])
+                    except IndexError:
+                        ssl.append('IndexError')
+                isl = impl.slices()
                 if isl != ssl:
                     clause = 'slice-access'
                     o, so = isl, ssl
